@@ -60,11 +60,14 @@ def run_tables(lib, tables):
         n = t["n"]
         F = len(t["frames"])
         hb = np.concatenate([hb_slots(fr["hb"], n).ravel() for fr in t["frames"]]).astype(np.int32)
+        # synthetic energies (all below -0.5); "strength" per frame lets bonds weaken / strengthen over frames
+        en = np.concatenate([np.full(2 * n, -float(fr.get("strength", 1.0)), dtype=np.float32) -
+                             0.01 * np.tile(np.arange(2, dtype=np.float32), n) for fr in t["frames"]]).astype(np.float32)
         turn = iarr([fr["turn"] for fr in t["frames"]])
         chain = iarr(t["chain"])
         missing = iarr(t["missing"])
         out = ctypes.create_string_buffer(F * n + 1)
-        nf = lib.shim_dssp(F, n, ptr(hb), ptr(chain), ptr(missing), ptr(turn), out)
+        nf = lib.shim_dssp(F, n, ptr(hb), en.ctypes.data_as(ctypes.POINTER(ctypes.c_float)), ptr(chain), ptr(missing), ptr(turn), out)
         assert nf == F
         s = out.raw[:F * n].decode("ascii")
         strings = [s[f * n:(f + 1) * n] for f in range(F)]
@@ -174,7 +177,10 @@ def run_e2e(cases, repo):
         big = np.zeros((F + 1, n_atoms, 3), dtype=np.float32)
         big[0] = t0.xyz[0] + 0.3
         for f in range(F):
-            scale = c["noise"] * (f + 1) / F if c.get("ramp") else c["noise"]
+            if c.get("schedule"):
+                scale = c["noise"] * c["schedule"][f]
+            else:
+                scale = c["noise"] * (f + 1) / F if c.get("ramp") else c["noise"]
             big[f + 1] = t0.xyz[0] + rng.normal(0.0, 1.0, size=(n_atoms, 3)).astype(np.float32) * scale
         traj = md.Trajectory(big[1:], t0.topology)
         full = md.compute_dssp(traj, simplified=False)
